@@ -376,11 +376,12 @@ func (vfs *OrefaFS) Link(oldname, newname string) error {
 		return &os.LinkError{Op: op, Old: oldname, New: newname, Err: err}
 	}
 
-	oChild.mu.Lock()
-	defer oChild.mu.Unlock()
-
+	// the directory before the file, as a directory listing locks them.
 	nParent.mu.Lock()
 	defer nParent.mu.Unlock()
+
+	oChild.mu.Lock()
+	defer oChild.mu.Unlock()
 
 	if oChild.mode.IsDir() {
 		err := error(avfs.ErrOpNotPermitted)
